@@ -42,7 +42,7 @@ def confirm(patch, demo, wt):
 
 
 def do_import(prop):
-    src = f"/tmp/wt_{prop}/mutants"
+    src = f"/tmp/wt_{prop}/mutants" if os.path.isdir(f"/tmp/wt_{prop}/mutants") else f"/tmp/wt_{prop}b/mutants"
     wt = f"/tmp/confirm_{prop}"
     sh(f"git -C /repo worktree remove --force {wt}")
     rc, out = sh(f"git -C /repo worktree add -q --detach {wt} HEAD")
